@@ -1,6 +1,7 @@
 package main
 
 import (
+	"go/token"
 	"fmt"
 	"strings"
 
@@ -230,6 +231,17 @@ func rulesC17(e *Engine, r *Report) {
 					walk(x.Call.Args[0], nil, nil)
 				}
 			default:
+				// a function with a defer returns through a spilled result slot: follow the stores that reach the load
+				if u, ok := v.(*ssa.UnOp); ok && u.Op == token.MUL {
+					if a, ok := u.X.(*ssa.Alloc); ok && e.Canon(v) != "var(wrapped)" {
+						if vals, _ := e.ReachingStores(a, u); len(vals) > 0 {
+							for _, sv := range vals {
+								walk(sv, nil, nil)
+							}
+							return
+						}
+					}
+				}
 				if e.Canon(v) == "var(wrapped)" && pred != nil {
 					n++
 					conds := e.domConds(pred)
@@ -247,6 +259,109 @@ func rulesC17(e *Engine, r *Report) {
 			}
 		})
 		r.Min("R17.6", "sources of the scan result", n, 2)
+	}
+
+	// ---------------------------------------------------------------- R17.7
+	r.Rule("R17.7", "the walk offers every entry: fileutil.walk lists a directory whenever the callback accepted it (nil) unless it was visited before (link loops); inside the listing loop the next entry is taken only after this one was offered to the callback, recursed into, or - when links are followed - could not be resolved; the loop is left early only with a non-nil answer that is not `SkipDir from a directory`; a callback error ends walk with nil only for `SkipDir from a directory`; Readdir asks for all entries (Readdir(-1)); Walk swallows only SkipDir")
+	if fn := needFn(e, r, "R17.7", "fileutil.walk"); fn != nil {
+		cb := "dyn(p3)(p0, p2, nil)"
+		cls := labeler(
+			C("("+cb+" != nil)", "cbErr"), C("("+cb+" == nil)", "cbOK"),
+			C("invoke(os.FileInfo.IsDir)(p2)", "isDir"), C("!invoke(os.FileInfo.IsDir)(p2)", "notDir"),
+			C("("+cb+" == global(filepath.SkipDir))", "cbSkip"),
+			C("p4[p1]#1", "seenBefore"),
+			I("call(fileutil.Readdir)(p1)", "listed"),
+		)
+		n := 0
+		for _, rw := range e.returnWorlds(r, "R17.7", fn, cls) {
+			rt := rw.In.(*ssa.Return)
+			v := e.Canon(rt.Results[0])
+			switch {
+			case rw.W.Has("cbErr") && v == "nil":
+				n++
+				r.Check(rw.W.HasAll("isDir", "cbSkip"), "R17.7", "fileutil.walk: a callback error is swallowed only as SkipDir of a directory "+rw.W.String(), e.InstrPos(rt),
+					"walk answers nil although the callback reported an error other than SkipDir-for-a-directory", 1, rw.W.String())
+			case rw.W.Has("cbErr"):
+				n++
+				r.Check(v == cb, "R17.7", "fileutil.walk: the callback's error is handed up unchanged "+rw.W.String(), e.InstrPos(rt), "another value is returned: "+shorten(v), 1, v)
+			case rw.W.HasAll("cbOK", "isDir"):
+				n++
+				r.Check(rw.W.HasAny("listed", "seenBefore"), "R17.7", "fileutil.walk: an accepted directory is listed "+rw.W.String(), e.InstrPos(rt),
+					"walk returns for a directory the callback accepted without reading its entries", 1, rw.W.String())
+			}
+		}
+		r.Min("R17.7", "return classes of fileutil.walk examined", n, 4)
+		// the listing loop
+		rec := e.findInstrs(fn, "call(fileutil.walk)(call(filepath.Join)([p0, §]), §, §, p3, p4)", false)
+		r.Check(len(rec) == 1, "R17.7", "fileutil.walk: recursion into <path>/<entry> with the same callback and history", e.Pos(fn.Pos()), "the recursive call is not on the entry's path with the caller's callback", 1)
+		if len(rec) == 1 {
+			hdr, _ := innermostLoop(rec[0])
+			var backs []ssa.Instruction // every back edge of the listing loop, not only those behind the recursion
+			for _, p := range hdr.Preds {
+				if hdr.Dominates(p) {
+					backs = append(backs, p.Instrs[len(p.Instrs)-1])
+				}
+			}
+			offered := "dyn(p3)(call(filepath.Join)([p0, §"
+			recursed := "call(fileutil.walk)(call(filepath.Join)([p0, §"
+			nb := 0
+			for _, bi := range backs {
+				b := bi.Block()
+				conds := e.domConds(b)
+				if t, ok := bi.(*ssa.If); ok {
+					for si, pol := range []bool{true, false} {
+						if b.Succs[si] == hdr && b.Succs[1-si] != hdr {
+							conds = append(conds, e.CondStr(t.Cond, pol))
+						}
+					}
+				}
+				nb++
+				unresolved := hasStr(conds, "(p4 != nil)") && (hasStr(conds, "(call(fileutil.cleanAbsPath)(§)#1 != nil)") || hasStr(conds, "(call(filepath.EvalSymlinks)(§)#1 != nil)"))
+				ok := unresolved || hasStr(conds, "("+offered+"§") || hasStr(conds, "("+recursed+"§")
+				r.Check(ok, "R17.7", fmt.Sprintf("fileutil.walk: next entry only after this one was offered, recursed into or unresolvable under link-following (b%d)", b.Index), e.InstrPos(bi),
+					"an entry of the directory is passed over without being shown to the callback", 1, conds...)
+			}
+			r.Min("R17.7", "ways the listing loop moves to the next entry", nb, 4)
+			// early exits of the loop
+			ne := 0
+			for _, b := range fn.Blocks {
+				rt, ok := b.Instrs[len(b.Instrs)-1].(*ssa.Return)
+				if !ok || b == hdr || !hdr.Dominates(b) || (len(b.Preds) == 1 && b.Preds[0] == hdr) {
+					continue // not a return from inside the listing (the loop's own end is the block entered from the header)
+				}
+				ne++
+				conds := e.domConds(b)
+				v := e.Canon(rt.Results[0])
+				viaCb := strings.HasPrefix(v, "dyn(p3)(call(filepath.Join)([p0, ")
+				viaRec := strings.HasPrefix(v, "call(fileutil.walk)(call(filepath.Join)([p0, ")
+				okc := false
+				if viaCb {
+					okc = hasStr(conds, "("+offered+"§ != nil)") && hasStr(conds, "("+offered+"§ != global(filepath.SkipDir))")
+				}
+				if viaRec {
+					okc = hasStr(conds, "("+recursed+"§ != nil)")
+				}
+				r.Check(okc, "R17.7", fmt.Sprintf("fileutil.walk: the listing is abandoned only with the entry's own non-nil answer (b%d)", b.Index), e.InstrPos(rt),
+					"the loop over a directory's entries returns early without a non-nil, non-SkipDir answer for the entry: the remaining entries are never scanned", 1, append([]string{v}, conds...)...)
+			}
+			r.Min("R17.7", "early exits of the listing loop", ne, 2)
+			// a directory's SkipDir does not end the parent's listing: the F edge of `err != SkipDir` under IsDir goes back to the header
+			skipOK := false
+			for _, ed := range e.ifEdges(fn, "("+recursed+"§ == global(filepath.SkipDir))") {
+				if ed.B.Succs[ed.Succ] == hdr && hasStr(e.domConds(ed.B), "invoke(os.FileInfo.IsDir)(call(os.Lstat)(§)#0)") {
+					skipOK = true
+				}
+			}
+			r.Check(skipOK, "R17.7", "fileutil.walk: SkipDir of a sub-directory continues with its siblings", e.Pos(fn.Pos()), "a skipped sub-directory ends the listing of its parent", 1)
+		}
+	}
+	if fn := needFn(e, r, "R17.7", "fileutil.Readdir"); fn != nil {
+		all := e.findInstrs(fn, "call(os.(*File).Readdir)(§, -1)", false)
+		r.Check(len(all) == 1, "R17.7", "fileutil.Readdir reads all entries", e.Pos(fn.Pos()), "the directory is no longer read with Readdir(-1)", 1)
+	}
+	if fn := needFn(e, r, "R17.7", "fileutil.Walk"); fn != nil {
+		w := e.findInstrs(fn, "call(fileutil.walk)(p0, §, §, p1, §)", false)
+		r.Check(len(w) == 1, "R17.7", "fileutil.Walk starts walk at the root with the caller's callback", e.Pos(fn.Pos()), "walk is not started on the root with the callback given", 1)
 	}
 
 	// ---------------------------------------------------------------- R17.5
